@@ -886,8 +886,20 @@ class PEval:
                 return args[1]
             if fname in ("box_assume_init_into_vec_unsafe", "into_vec", "box_new", "assume_init"):
                 return a0
-        if fname == "default" and not args and path.startswith("<") and " as core::default::Default>" in path:
-            t = path[1:].split(" as ")[0]
+        if fname == "default" and not args and "default::Default" in path:
+            t = path[1:].split(" as ")[0] if path.startswith("<") else ""
+            rt = self.lib.ty_str(self.lib.strip_refs(node["t"])) if node is not None and "t" in node else ""
+            if t in ("T", "") or "<" not in path:
+                t = rt
+            if t.startswith("core::marker::PhantomData"):
+                return UNIT
+            cand = self.lib.fn("<%s as core::default::Default>::default" % t)
+            if cand is not None and thir.body_of(cand):
+                return self.call_fn(cand, [], depth + 1)
+            if any(m in t.split("<")[0] for m in MAP_TYPES):
+                return PyMap(sorted_="btree" in t)
+            if any(m in t.split("<")[0] for m in SET_TYPES):
+                return PySet(sorted_="btree" in t)
             if t == "bool":
                 return False
             if re.fullmatch(r"[iu](8|16|32|64|128|size)", t):
